@@ -25,6 +25,7 @@ class Opts:
         self.join_kw = "join"
         self.qualify = None           # write unqualified table names as <qualify>.<name>
         self.where_op = "in"
+        self.isub_form = "plain"      # where a select-list subquery sits: plain | else | then | func | func_in_expr
         self.names_pool = None        # list of alias names used in order (JSON-friendly form of names)
         self.alias_scope = "global"   # "local": alias numbering restarts in every query scope (aliases re-used across scopes)
         self.__dict__.update(kw)
@@ -136,7 +137,17 @@ class R:
                 continue
             out += [self.kw("select"), self.ident("c1")]
             if b["isub"]:
-                out += [",", "("] + b["isub"] + [")", self.kw("as"), self.ident("c2")]
+                q = ["("] + b["isub"] + [")"]
+                how = self.o.isub_form
+                if how == "else":          # ELSE branch of a CASE
+                    q = [self.kw("case"), self.kw("when"), self.ident("c1"), ">", "0", self.kw("then"), "1", self.kw("else")] + q + [self.kw("end")]
+                elif how == "func_in_expr":   # argument of a function inside an expression
+                    q = [self.ident("c1"), "+", "coalesce", "("] + q + [",", "0", ")"]
+                elif how == "func":        # argument of a function
+                    q = ["coalesce", "(", "("] + q + [")", ",", "0", ")"]
+                elif how == "then":
+                    q = [self.kw("case"), self.kw("when"), self.ident("c1"), ">", "0", self.kw("then")] + q + [self.kw("end")]
+                out += [","] + q + [self.kw("as"), self.ident("c2")]
             if into and bi == 0:
                 out += [self.kw("into")] + into
             out += [self.kw("from")] + self.from_list(b["from"])
